@@ -74,6 +74,8 @@ class Exec(object):
         self.track_raises = track_raises
         self.obls = []
         self.loop_counter = 0
+        self.loop_ids = {}
+        self.comp_counter = 0
         self.axioms = []           # closure definitions etc. (quantified, pattern-guarded)
         self.module = fi.module
         self.fname = '%s::%s' % (fi.file.split('/')[-1], fi.qualname)
@@ -84,6 +86,9 @@ class Exec(object):
     # ------------------------------------------------------------------ helpers
     def obl(self, kind, state, goal, carries=False, extra_h=(), suffix=''):
         name = '%s/%s/%s%s' % (self.prop, self.fname, kind, suffix)
+        while z3.is_quantifier(goal) and goal.is_forall():
+            vs = [fresh(goal.var_sort(i), 'sk_' + goal.var_name(i)) for i in range(goal.num_vars())]
+            goal = z3.substitute_vars(goal.body(), *reversed(vs))
         n = sum(1 for o in self.obls if o.name.split('@')[0] == name)
         if n: name = '%s@%d' % (name, n)
         o = Obligation(name, list(state.pc) + list(self.axioms) + list(extra_h), goal, kind=kind.split('/')[0],
@@ -131,6 +136,7 @@ class Exec(object):
         """value usable as a callable of one real argument -> z3 Fn term"""
         ref = v
         v = self.deref(v, st)
+        if isinstance(v, Dual): v = v.fn
         if isinstance(v, FnV): return v.z
         if isinstance(v, Obj):
             raise Unsupported('callable object %r used as a function: give it an Fn-typed field or a contract' % (v,))
@@ -475,6 +481,10 @@ class ExprMixin(object):
             return z3.Or(*[self.compare(ast.Eq(), item, x, st) for x in c.items]) if c.items else z3.BoolVal(False)
         raise Unsupported('membership in %r' % (c,))
 
+    def key_sort(self, kty):
+        if kty.kind == 'Tuple': return TupleSort([t.sort() for t in kty.args])
+        return kty.sort()
+
     def key_term(self, k, st):
         k = self.deref(k, st)
         if isinstance(k, Tup):
@@ -557,13 +567,22 @@ class ExprMixin(object):
         seen = st.__dict__.setdefault('inv_seen', set())
         if key in seen: return
         st.inv_seen = set(seen) | {key}
-        st.pc += d.invariant(o.z)
+        z = o.z
+        if not z3.is_const(z):
+            # triggers may not contain ite/selects: state the invariant on an alias (E-matching works modulo equality)
+            z = fresh(o.z.sort(), 'alias'); st.pc.append(z == o.z)
+        st.pc += d.invariant(z)
 
     def read_field(self, obj, name, fty, st):
         if fty.kind == 'Opt':
             inner = fty.args[0]
             isn = field(obj.cls, name + '?none', BoolS)(obj.z)
             return Opt(isn, wrap(inner, field(obj.cls, name, inner.sort())(obj.z)))
+        if fty.kind == 'FnOrDict':
+            kty, vty = fty.args
+            has = field(obj.cls, name + '.has', z3.ArraySort(kty.sort(), BoolS))(obj.z)
+            get = field(obj.cls, name + '.get', z3.ArraySort(kty.sort(), vty.sort()))(obj.z)
+            return Dual(FnV(field(obj.cls, name, Fn)(obj.z)), SymDict(has, get, kty, vty))
         if fty.kind == 'Dict':
             kty, vty = fty.args
             has = field(obj.cls, name + '.has', z3.ArraySort(kty.sort(), BoolS))(obj.z)
@@ -574,7 +593,7 @@ class ExprMixin(object):
     def class_home(self, cls):
         d = self.reg.classes.get(cls)
         if d is None: raise Unsupported('class %s is not declared in the sidecar' % cls)
-        return (Module.get(d.file), cls)
+        return (Module.get(d.file), d.pyname)
 
     def find_method_of(self, cls, name):
         m, c = self.class_home(cls)
@@ -612,6 +631,7 @@ class ExprMixin(object):
 
     def subscript(self, c, i, st, node=None):
         c, i = self.deref(c, st), self.deref(i, st)
+        if isinstance(c, Dual): c = c.dict
         if isinstance(c, (Tup, PyList)):
             if isinstance(i, Sc) and z3.is_int_value(i.z):
                 k = i.z.as_long()
@@ -668,6 +688,25 @@ class ExprMixin(object):
                 if len(res) != 1: raise Unsupported('forking comprehension')
                 items.append(res[0][0]); s = res[0][1]
             return [(s.new_cell(PyList(items)), s)]
+        if isinstance(src, SeqV):
+            if id(n) not in self.loop_ids:
+                self.loop_ids[id(n)] = self.comp_counter; self.comp_counter += 1
+            ordinal = self.loop_ids[id(n)]
+            entry = self.contract.comprehensions.get(ordinal)
+            if entry is None: raise ComprehensionOverSymbolic(n, src)
+            spec, params = entry
+            ps = [coerce_py(x) for x in params(NS(self, st))]
+            # check: element k of the comprehension is the spec's element k, for arbitrary k
+            k = fresh(IntS, 'ck')
+            s2 = st.copy(); s2.pc += [k >= 0, k < z3.Length(src.z)]
+            self.bind(g.target, wrap(src.elem, src.z[k]), s2)
+            res = self.ev(n.elt, s2)
+            if len(res) != 1: raise Unsupported('forking comprehension')
+            ev_, s3 = res[0]
+            ety = _ty_of_sort(spec.result.basis()) if spec.result != DocList else T.Text
+            got = z3.Unit(self.elem_term(ev_, ety, s3))
+            self.obl('comprehension/%d' % ordinal, s3, got == spec.elem(*(ps + [k])), carries=True)
+            return [(st.new_cell(SeqV(spec(*(ps + [z3.Length(src.z)])), ety)), st)]
         raise ComprehensionOverSymbolic(n, src)
 
     def ev_Call(self, n, st):
@@ -815,9 +854,27 @@ class StmtMixin(object):
             if z3.is_false(t): outs.extend(self.block(s.orelse, s1)); continue
             a = s1.copy(); a.pc.append(t)
             b = s1.copy(); b.pc.append(z3.Not(t))
+            self.refine_optional(s.test, a, True); self.refine_optional(s.test, b, False)
             if self.feasible(a): outs.extend(self.block(s.body, a))
             if self.feasible(b): outs.extend(self.block(s.orelse, b))
         return outs
+
+    def refine_optional(self, test, st, branch):
+        """in the branch where an optional variable is known not to be None it is re-bound to its value"""
+        neg = False
+        while isinstance(test, ast.UnaryOp) and isinstance(test.op, ast.Not):
+            test = test.operand; neg = not neg
+        name, notnone_when = None, None
+        if isinstance(test, ast.Name): name, notnone_when = test.id, True
+        elif isinstance(test, ast.Compare) and len(test.ops) == 1 and isinstance(test.left, ast.Name) \
+                and isinstance(test.comparators[0], ast.Constant) and test.comparators[0].value is None:
+            name = test.left.id
+            notnone_when = isinstance(test.ops[0], (ast.IsNot, ast.NotEq))
+        if name is None: return
+        if neg: notnone_when = not notnone_when
+        v = st.env.get(name)
+        if isinstance(v, Opt) and branch == notnone_when:
+            st.env[name] = v.val
 
     def feasible(self, st):
         s = z3.Solver(); s.set('timeout', 2000); s.add(*st.pc)
@@ -1062,7 +1119,9 @@ class StmtMixin(object):
         raise Unsupported('havoc of %r' % (v,))
 
     def invariant_loop(self, s, lo, hi, elem, st):
-        ordinal = self.loop_counter; self.loop_counter += 1
+        if id(s) not in self.loop_ids:
+            self.loop_ids[id(s)] = self.loop_counter; self.loop_counter += 1
+        ordinal = self.loop_ids[id(s)]
         inv = self.contract.invariants.get(ordinal)
         if inv is None:
             raise Unsupported('loop #%d of %s has no invariant in the sidecar' % (ordinal, self.fname))
@@ -1080,6 +1139,13 @@ class StmtMixin(object):
                 if ty is None: ty = _ty_of_sort(unwrap(pl.items[0]).sort())
                 z = z3.Empty(z3.SeqSort(ty.sort())) if not pl.items else unwrap(pl)
                 st.cells[v.id] = SeqV(z, ty)
+        for nm in list(st.env):
+            v = st.env[nm]
+            if isinstance(v, Ref) and isinstance(st.cells[v.id], PyDict) and not st.cells[v.id].d and nm in self.loop_list_types:
+                ty = self.loop_list_types[nm]
+                kty, vty = ty.args
+                ks = self.key_sort(kty)
+                st.cells[v.id] = SymDict(z3.K(ks, z3.BoolVal(False)), fresh(z3.ArraySort(ks, vty.sort()), nm + '.get0'), kty, vty)
         # 1. initiation
         s0 = st.copy(); s0.env[idx] = Sc(lo, 'int')
         for g in inv(NS(self, s0), self.old_ns):
@@ -1175,6 +1241,7 @@ class CallMixin(object):
     def call_value(self, f, args, kw, st, node=None):
         """-> [(value, state)]; raising paths appended to self._raises"""
         f = self.deref(f, st) if not isinstance(f, BoundMethod) else f
+        if isinstance(f, Dual): f = f.fn
         if isinstance(f, Builtin): return self.call_builtin(f.name, args, kw, st, node)
         if isinstance(f, FuncV): return self.call_function(f.fi, args, kw, st, node=node)
         if isinstance(f, Closure):
@@ -1356,6 +1423,7 @@ class CallMixin(object):
     def elem_term(self, v, ty, st):
         v = self.deref(v, st)
         if isinstance(v, PyStr) and ty.kind == 'Text': return lit_doc(v.s)
+        if isinstance(v, Sc) and ty.kind == 'Text': return self.text_of(v, st)
         if ty.kind == 'Real' and isinstance(v, Sc): return self.as_real(v)
         if isinstance(v, Rec): return self.rec_to_obj(v, st).z
         return unwrap(v)
@@ -1521,6 +1589,12 @@ class CallMixin(object):
     def coerce(self, v, ty, st, nm):
         d = self.deref(v, st)
         k = ty.kind
+        if isinstance(d, Dual) and k == 'Fn': return d.fn
+        if k == 'Opt':
+            if isinstance(d, Opt): return d
+            inner = ty.args[0]
+            if isinstance(d, NoneV): return Opt(z3.BoolVal(True), wrap(inner, fresh(inner.sort(), nm + '_none')))
+            return Opt(z3.BoolVal(False), self.coerce(v, inner, st, nm))
         if k == 'Real' and isinstance(d, Sc) and d.py in ('int', 'bool'): return Sc(self.as_real(d), 'float')
         if k == 'Fn' and not isinstance(d, FnV): return FnV(self.as_fn(d, st))
         if k == 'Obj' and isinstance(d, Rec): return self.rec_to_obj(d, st)
@@ -1579,6 +1653,7 @@ class Executor(Exec, ExprMixin, StmtMixin, CallMixin):
         if k == 'Opt':
             return Opt(z3.Const(nm + '?none', BoolS), self.make_input(nm, ty.args[0], st))
         if k == 'None': return NONE
+        if k == 'Func': return FuncV(get_func(*ty.args))
         if k == 'New':
             return st.new_cell(Rec(ty.args[0], Module.get(self.reg.classes[ty.args[0]].file)))
         if k == 'Dict':
